@@ -265,7 +265,11 @@ def check_close(ctx, model):
         uses_claimed = any("claimed_amount" in o.proj for o in amt)
         # ... and through an accessor of the LATEST entry (expansions are cumulative totals keyed by epoch)
         latest = any(o.kind == "call" and re.search(r"BTreeMap::last_key_value$|BTreeMap::last_entry$|as std::iter::DoubleEndedIterator>::next_back$|"
-                                                    r"as std::iter::Iterator>::last$|get_flow_asset_amount_at_epoch$", o.a) for o in amt)
+                                                    r"as std::iter::Iterator>::last$", o.a) for o in amt)
+        # the epoch-bounded lookup helper answers "funded as of epoch e"; a close needs the last entry whatever its epoch
+        # (an expansion made in the flow's last epochs is keyed beyond the original end epoch)
+        bounded = any(o.kind == "call" and re.search(r"get_flow_asset_amount_at_epoch$|BTreeMap::range$", o.a) for o in amt)
+        latest = latest and not bounded
         earliest = any(o.kind == "call" and re.search(r"BTreeMap::first_key_value$|BTreeMap::first_entry$|BTreeMap::pop_first$", o.a) for o in amt)
         ctx.ob("C12-L3", "%s|refund-amount|%s" % (CLOSE, rv["variant"]), uses_hist and uses_claimed and latest and not earliest,
                "refund amount depends on asset_history (funded amount incl. expansions): %s, through a latest-entry accessor: %s (earliest-entry accessor: %s); on claimed_amount: %s"
@@ -306,6 +310,7 @@ def check_fee_message(ctx, model):
 def run(ctx):
     model = ctx.model()
     check_expand_same_asset(ctx, model)
+    check_expand_reads_after_reset(ctx, model)
     # L9: the v1.0.6 storage migration keeps every flow ledger (funded asset, claimed_amount, emitted_tokens, epochs)
     from .common import check_migration_copy
     check_migration_copy(ctx, model, "C12-L9", "incentive::migrations::migrate_to_v106", "pool_network::incentive::Flow", {"flow_label", "asset_history"})
@@ -400,3 +405,41 @@ def check_expand_same_asset(ctx, model):
     ok = bool(saves) and bool(edges) and all(v.edge_dominated(sb, edges) for sb, _ in saves)
     ctx.ob("C12-L1", "expand_flow|same-asset-as-the-flow", ok,
            "FLOWS.save dominated by stored flow asset == offered asset: %s" % ok, v.where(saves[0][0]) if saves else v.where())
+
+
+def check_expand_reads_after_reset(ctx, model):
+    """L1 (expand, state handling): when an expansion resets the flow (history cleared, flow_asset netted of claims,
+    claimed_amount zeroed), the cumulative total it then records must be computed from the flow AFTER the reset: no value
+    read from asset_history before the `clear()` may feed the entry inserted after it (a pre-reset total written back into
+    the cleared history re-adds what was already claimed)."""
+    v = ctx.view(EXPAND, "C12-L1")
+    if v is None:
+        return
+    resets = [b for b, t in v.calls_to(r"BTreeMap::clear$") if any("asset_history" in o.proj for o in v.origins_of_operand(t["args"][0], at=v.at_term(b), taint=True))]
+    inserts = v.calls_to(r"BTreeMap::insert$")
+    if not resets or not inserts:
+        ctx.missing("C12-L1", "asset_history.clear() / asset_history.insert(..) in expand_flow")
+        return
+    bad = []
+    for ib, it in inserts:
+        work = list(v.origins_of_operand(it["args"][2], proj=("0",), at=v.at_term(ib)))
+        seen = set()
+        while work:
+            o = work.pop()
+            if o in seen or o.kind != "call":
+                continue
+            seen.add(o)
+            c = call_of(v, o)
+            if c is None:
+                continue
+            cb, ct = c
+            n = mname(ct)
+            if re.search(r"BTreeMap::(get|get_mut|last_key_value|first_key_value|range)$|get_flow_asset_amount_at_epoch$", n):
+                for rb in resets:
+                    if rb in v.reach_strict(cb) and ib in v.reach_strict(rb) and cb not in v.reach_strict(rb):
+                        bad.append("%s at line %s is read before the reset at line %s and stored after it" % (n.split("::")[-1], ct.get("ln"), v.line_of_block(rb)))
+                continue
+            if re.search(r"checked_add$|as std::ops::Add>::add$", n):
+                for a in ct["args"]:
+                    work += list(v.origins_of_operand(a, at=v.at_term(cb)))
+    ctx.ob("C12-L1", "expand_flow|recorded-total-read-after-the-reset", not bad, "; ".join(bad) if bad else "the inserted cumulative total is computed from reads made after the reset", v.where(inserts[0][0]))
